@@ -208,7 +208,9 @@ class Interp:
             if hook is not None:
                 res = hook(self, fn, list(args), dict(kwargs))
                 if res is not NotImplemented:
+                    self.rt.by_contract.add(fn.info.fullname)
                     return res
+            self.rt.executed.add(fn.info.fullname)
             return self.call_closure(fn, args, kwargs)
         if isinstance(fn, LambdaFn):
             frame = Frame(None, fn.module, parent=fn.frame)
@@ -593,6 +595,8 @@ class Interp:
         return self.rt.getattr(self, self.eval(e.value, frame), e.attr, e)
 
     def e_Await(self, e, frame):
+        if isinstance(e.value, ast.Call):
+            self._awaited_call = e.value        # `await f(...)`: the coroutine object is consumed on the spot
         v = self.eval(e.value, frame)
         return self.rt.await_value(self, v)
 
@@ -757,7 +761,20 @@ class Interp:
                     kwargs[kk] = vv
             else:
                 kwargs[k.arg] = self.eval(k.value, frame)
+        if getattr(self, "_awaited_call", None) is e:
+            self._awaited_call = None
+        elif self._is_coroutine_function(fn):
+            # a coroutine object that is stored / passed on instead of being awaited here: its body has not run
+            from .objects import Coroutine
+            return Coroutine(fn, args, kwargs)
         return self.call(fn, args, kwargs)
+
+    @staticmethod
+    def _is_coroutine_function(fn):
+        while isinstance(fn, (BoundMethod, StaticM)):
+            fn = fn.func
+        return (isinstance(fn, Closure) and isinstance(fn.info.node, ast.AsyncFunctionDef) and not fn.info.is_generator
+                and not fn.attrs.get("contextmanager"))
 
     def _comp(self, generators, frame, emit):
         def rec(i, fr):
